@@ -1,5 +1,5 @@
 SPECIFICATION Spec
-CONSTANTS N = 7  SnapWhen = "after_devices"  NCalls = 2  Rule = "endpoint_any_axis"  Scene = "reps"
+CONSTANTS N = 7  SnapWhen = "after_devices"  NCalls = 2  Rule = "endpoint_any_axis"  Scene = "pairq"
 INVARIANT TypeOK
 INVARIANT StateIsFresh
 INVARIANT AllValid
